@@ -27,6 +27,8 @@ its own); publication after close, by os.replace and not by a copying primitive.
 Round 7: includes the closedness rules E of C15 (the blocks rely only on names every driver binds
 itself: a field table bound in the module by the builder is shared by same-named classes).
 Round 8: includes the hash-coverage rules H of C15.
+Round 9: constant placeholders in the cookie line; an attribute that holds the load path names
+that file.
 """
 import ast
 
